@@ -83,6 +83,11 @@ func (st *State) mapUpdate(x *ssa.MapUpdate) {
 	v := st.val(x.Value)
 	mt := types.Unalias(m.T).Underlying().(*types.Map)
 	st.check("nil", "assignment to entry in nil map: "+st.textAt(x.Pos(), "map update"), x.Pos(), Ne(m.Tm, IntLit(0)))
+	if fs := st.frame.spec; fs != nil && fs.Flags["permanentkeys"] != "" && isString(mt.Key()) && !k.Tm.IsZero() {
+		// a map keeps its key for as long as the entry lives: a key that is a view of memory somebody else rewrites (a
+		// field value in a pooled record buffer) silently corrupts the map when that memory is recycled
+		st.check("sharedkey", "map key must be a permanent copy: "+st.textAt(x.Pos(), "map update"), x.Pos(), Ne(StrOwn(k.Tm), IntLit(1)))
+	}
 	kt := st.mapKeyTerm(k, mt)
 	dom, val, ln, hn := st.mapHeaps(mt)
 	vt := v.Tm
